@@ -357,6 +357,37 @@ pub fn directed() -> Vec<Request> {
             }
         }
     }
+    // every ordered pair of helper ARGUMENTS of the comparison family, in one attribute and split
+    // over two attributes (of the same or of two different comparison helpers) on one field:
+    // what one argument makes of the expression another argument produced (`reverse` around
+    // `by`, `ignore` next to `key`, `bound` next to either, the same argument twice)
+    {
+        let args = ["key = $", "key = $.0", "by = f", "by = |a, b| f(a, b)", "reverse", "ignore", "bound(T)", "bound(..)"];
+        let cmps = ["ord", "partial_ord", "eq", "partial_eq", "hash"];
+        let lists = ["Ord, PartialOrd, Eq, PartialEq, Hash", "PartialOrd, PartialEq", "Ord, PartialOrd", "Hash, Eq, PartialEq"];
+        for a1 in args {
+            for a2 in args {
+                if a1 == a2 && a1 != "reverse" {
+                    continue;
+                }
+                for c1 in cmps {
+                    for list in lists {
+                        out.push(Request { mode: Mode::Attr, attr: list.into(), item: format!("struct X<T>(#[{c1}({a1}, {a2})] (u8, u8), T);") });
+                    }
+                    out.push(Request {
+                        mode: Mode::Derive,
+                        attr: String::new(),
+                        item: format!("#[derive_ex(Ord, PartialOrd, Eq, PartialEq, Hash)] enum X<T> {{ A {{ #[{c1}({a1}, {a2})] a: (u8, u8), t: T }}, B }}"),
+                    });
+                    for c2 in cmps {
+                        for list in &lists[..2] {
+                            out.push(Request { mode: Mode::Attr, attr: list.to_string(), item: format!("struct X<T>(#[{c1}({a1})] #[{c2}({a2})] (u8, u8), T);") });
+                        }
+                    }
+                }
+            }
+        }
+    }
     // the first of several compared fields carries the helper, in an enum variant and a struct
     for cmp in ["ord", "partial_ord", "eq", "partial_eq", "hash"] {
         for (arg, e) in [("by", "f"), ("key", "$.0"), ("by", "|a, b| a == b"), ("key", "{ $ }")] {
